@@ -106,6 +106,113 @@ for _op in [k for k in _table() if k in PY]:
         ensures=lambda e: [("CPython(a %s b) == IR(a %s b) on i64" % (e.astop.__name__, e.result), PY[e.astop](e.a, e.b)[1]() == ir_binop(e.result, e.a, e.b))]))
 
 
+# ---- floor division: the real gen_floor_div on a recording builder, its control-flow skeleton executed symbolically ----
+def _floor_div_skeleton():
+    from ppci.lang.python.python2ir import PythonToIrCompiler
+    from ppci import ir
+
+    class Rec:
+        """stands in for irutils.Builder: real IR nodes, blocks recorded but not linked into a function"""
+
+        def __init__(self):
+            self.blocks, self.n = {}, 0
+            self.entry = self.block = self.new_block("entry")
+
+        def new_block(self, name=None):
+            self.n += 1
+            b = ir.Block(name or "b%d" % self.n)
+            self.blocks[b] = []
+            return b
+
+        def set_block(self, b):
+            self.block = b
+
+        def emit(self, ins):
+            self.blocks[self.block].append(ins)
+            return ins
+
+        def emit_binop(self, a, op, b, ty):
+            if isinstance(b, int):
+                b = self.emit(ir.Const(b, "const", ty))
+            return self.emit(ir.Binop(a, op, b, "binop", ty))
+
+        def emit_const(self, value, ty):
+            return self.emit(ir.Const(value, "num", ty))
+
+        def emit_jump(self, b):
+            self.emit(ir.Jump(b))
+
+    class Stub(PythonToIrCompiler):
+        def __init__(self):
+            self.builder = Rec()
+
+        def emit(self, ins):
+            return self.builder.emit(ins)
+
+        def error(self, node, message):
+            raise AssertionError(message)
+    st = Stub()
+    a, b = ir.Parameter("a", ir.i64), ir.Parameter("b", ir.i64)
+    res = st.gen_floor_div(None, a, b, ir.i64)
+    return st.builder, res
+
+
+def _walk_skeleton(rec, node, a, b):
+    """value of `node` when the recorded skeleton runs on operands a, b under IR semantics (i64); conditional jumps fork the path"""
+    from ppci import ir
+    vals, prev, blk = {}, None, rec.entry
+
+    def val(v):
+        if isinstance(v, ir.Parameter):
+            return a if v.name == "a" else b
+        if id(v) in vals:
+            return vals[id(v)]
+        raise Undecided("contract stale: value %s used before it is defined" % v)
+    CMP_ = {"==": lambda x, y: x == y, "!=": lambda x, y: x != y, "<": lambda x, y: x < y, ">": lambda x, y: x > y, "<=": lambda x, y: x <= y, ">=": lambda x, y: x >= y}
+    for _ in range(32):
+        nxt = None
+        for ins in rec.blocks[blk]:
+            if isinstance(ins, ir.CJump):
+                nxt = ins.lab_yes if bool(CMP_[ins.cond](val(ins.a), val(ins.b))) else ins.lab_no
+                break
+            if isinstance(ins, ir.Jump):
+                nxt = ins.target
+                break
+            if isinstance(ins, ir.Phi):
+                vals[id(ins)] = val(ins.inputs[prev])
+            elif isinstance(ins, ir.Binop):
+                vals[id(ins)] = ir_binop(ins.operation, val(ins.a), val(ins.b))
+            elif isinstance(ins, ir.Const):
+                vals[id(ins)] = ins.value
+            else:
+                raise Undecided("contract stale: %s in the floor-division lowering" % type(ins).__name__)
+            if ins is node:
+                return vals[id(ins)]
+        if nxt is None:
+            raise Undecided("contract stale: the skeleton ends before the result is defined")
+        prev, blk = blk, nxt
+    raise Undecided("contract stale: skeleton longer than 32 blocks")
+
+
+def _floor_pre(e):
+    yield e.b != 0
+    yield in64(e.a // e.b)
+
+
+def _floor_call(fn, env, args, kwargs):
+    rec, node = _floor_div_skeleton()
+    return _walk_skeleton(rec, node, env.a, env.b)
+
+
+CONTRACTS.append(Contract(
+    M + ":PythonToIrCompiler.gen_floor_div", "C36", label="gen_floor_div (a // b): guarded lowering", grid=[{}],
+    make=_mk2, call=_floor_call, sample_inputs=lambda g, rnd: _samples(g, rnd) + [{"a": a, "b": b} for a in (-7, 7, -8, 8, 0, LO, HI - 1) for b in (2, -2, 3, -3, 1, -1) if not (a == LO and b == -1)],
+    replay_args=lambda g, v: {"args": [], "env": dict(v)},
+    requires=_floor_pre,
+    ensures=lambda e: [("IR value of the emitted control-flow skeleton == CPython (a // b), for all 64-bit operands incl. inexact divisions of operands with different signs",
+                        e.result == e.a // e.b)]))
+
+
 # compare map: extracted by running the real gen_compare on a stub compiler
 CMP = {ast.Gt: lambda a, b: a > b, ast.GtE: lambda a, b: a >= b, ast.Lt: lambda a, b: a < b, ast.LtE: lambda a, b: a <= b,
        ast.Eq: lambda a, b: a == b, ast.NotEq: lambda a, b: a != b}
@@ -168,6 +275,7 @@ PROGRAMS = [
     ("bool_chain3", "def f(a: int, b: int) -> int:\n    r = 0\n    if a > 0 and b > 0 and a != b:\n        r = r + 1\n    if a < 0 or b < 0 or a == b:\n        r = r + 10\n    if a > 1 and (b > 1 or a > 3) and b != 2:\n        r = r + 100\n    if a == 9 or b == 9 or a > b or b > 4:\n        r = r + 1000\n    return r\n"),
     ("while_cond_chain", "def f(a: int, b: int) -> int:\n    i = 0\n    while i < 10 and i != a and i * 2 != b:\n        i = i + 1\n    return i\n"),
     ("if_nested_else", "def f(a: int, b: int) -> int:\n    r = 0\n    if a > 0:\n        if b > 0:\n            r = 1\n        else:\n            r = 2\n    else:\n        if b > a:\n            r = 3\n    return r * 10 + a\n"),
+    ("floordiv_signs", "def f(a: int, b: int) -> int:\n    q = a // (b * 2 + 1)\n    r = (0 - a) // 3\n    s = a\n    s //= (0 - 2)\n    return q * 10000 + r * 100 + s\n"),
     ("loop_swap", "def f(a: int, b: int) -> int:\n    x = a\n    y = 7\n    z = 1\n    for i in range(b):\n        x, y = y, x\n        z = z + x\n    return x * 10000 + y * 100 + z\n"),
     ("loop_rotate_fib", "def f(a: int, b: int) -> int:\n    x = 0\n    y = 1\n    z = a\n    i = 0\n    while i < b:\n        x, y, z = y, z, x + y\n        i = i + 1\n    return x * 10000 + y * 100 + z\n"),
     ("loop_acc_mul", "def f(a: int, b: int) -> int:\n    p = 1\n    i = 0\n    while i < b:\n        p = p * 3 + a\n        i += 1\n    return p\n"),
